@@ -514,6 +514,7 @@ func (x *Exec) execReturn(n *ast.ReturnStmt, st *State) *State {
 	if st == nil {
 		return nil
 	}
+	x.reach(st, n.Pos(), "return statement")
 	x.returns = append(x.returns, retExit{st, res})
 	return nil
 }
@@ -646,6 +647,8 @@ func (x *Exec) execSwitch(n *ast.SwitchStmt, st *State, label string) *State {
 // assignedIn computes the set of variables (and heap fields / ghost effects)
 // possibly modified by the statements.
 type modSet struct {
+	touched map[types.Object]bool // receivers / pointer or object arguments of calls: pointee and ghost state may change
+	partial map[types.Object]bool // only elements / fields stored (x[i] = v, x.f = v): header (len, nil-ness) unchanged
 	vars   map[types.Object]bool
 	heap   map[string]bool
 	yields bool
@@ -653,7 +656,7 @@ type modSet struct {
 }
 
 func (x *Exec) modifiedIn(nodes ...ast.Node) *modSet {
-	ms := &modSet{vars: map[types.Object]bool{}, heap: map[string]bool{}}
+	ms := &modSet{vars: map[types.Object]bool{}, heap: map[string]bool{}, touched: map[types.Object]bool{}, partial: map[types.Object]bool{}}
 	var rootOf func(e ast.Expr) (types.Object, []string)
 	rootOf = func(e ast.Expr) (types.Object, []string) {
 		switch n := e.(type) {
@@ -686,10 +689,18 @@ func (x *Exec) modifiedIn(nodes ...ast.Node) *modSet {
 		}
 		return nil, nil
 	}
+	touchOnly := false
 	mark := func(e ast.Expr) {
 		o, hs := rootOf(e)
 		if o != nil {
-			ms.vars[o] = true
+			_, direct := ast.Unparen(e).(*ast.Ident)
+			if touchOnly {
+				ms.touched[o] = true
+			} else if direct {
+				ms.vars[o] = true
+			} else {
+				ms.partial[o] = true
+			}
 		}
 		for _, h := range hs {
 			ms.heap[h] = true
@@ -740,11 +751,13 @@ func (x *Exec) modifiedIn(nodes ...ast.Node) *modSet {
 			case *ast.CallExpr:
 				ms.calls = true
 				// receiver / arguments that are external objects or pointers may be mutated
+				touchOnly = true
 				if se, ok := n.Fun.(*ast.SelectorExpr); ok {
 					if x.info.Selections[se] != nil {
 						mark(se.X)
 					}
 				}
+				touchOnly = false
 				if id, ok := n.Fun.(*ast.Ident); ok {
 					if o := x.info.Uses[id]; o != nil {
 						if _, isVar := o.(*types.Var); isVar {
@@ -763,7 +776,9 @@ func (x *Exec) modifiedIn(nodes ...ast.Node) *modSet {
 						continue
 					}
 					if k, _ := classify(at); k == kObj || k == kPtr {
+						touchOnly = true
 						mark(a)
+						touchOnly = false
 					}
 					if ue, ok := a.(*ast.UnaryExpr); ok && ue.Op == token.AND {
 						mark(ue.X)
@@ -799,6 +814,56 @@ func (x *Exec) havoc(st *State, ms *modSet, hint string) {
 		nv := x.c.freshVal(hint+"."+o.Name(), o.Type(), nil)
 		// a pointer in value mode keeps its shape; objects inside are havocked recursively
 		st.vars[o] = x.keepObjs(old, nv, hint)
+	}
+	var pobjs []types.Object
+	for o := range ms.partial {
+		if _, ok := st.vars[o]; ok && !ms.vars[o] {
+			pobjs = append(pobjs, o)
+		}
+	}
+	sort.Slice(pobjs, func(i, j int) bool { return pobjs[i].Pos() < pobjs[j].Pos() })
+	for _, o := range pobjs {
+		old := st.vars[o]
+		if ob, isObj := old.(Obj); isObj {
+			st.vars[o] = x.c.havocObj(ob, hint+"."+o.Name())
+			continue
+		}
+		if _, isFn := old.(Fn); isFn {
+			continue
+		}
+		nv := x.keepObjs(old, x.c.freshVal(hint+"."+o.Name(), o.Type(), nil), hint)
+		switch ov := old.(type) {
+		case Sl:
+			n := nv.(Sl)
+			st.vars[o] = Sl{n.Arr, ov.Off, ov.Len, ov.Nil, ov.Elem}
+		case Pt:
+			n := nv.(Pt)
+			st.vars[o] = Pt{ov.Nil, n.Elem, ov.T}
+		default:
+			st.vars[o] = nv
+		}
+	}
+	var tobjs []types.Object
+	for o := range ms.touched {
+		if _, ok := st.vars[o]; ok && !ms.vars[o] && !ms.partial[o] {
+			tobjs = append(tobjs, o)
+		}
+	}
+	sort.Slice(tobjs, func(i, j int) bool { return tobjs[i].Pos() < tobjs[j].Pos() })
+	for _, o := range tobjs {
+		switch old := st.vars[o].(type) {
+		case Obj:
+			st.vars[o] = x.c.havocObj(old, hint+"."+o.Name())
+		case Pt:
+			// the pointer itself is unchanged; its pointee may have been modified by the callee
+			nv := x.c.freshVal(hint+"."+o.Name(), old.T, nil)
+			st.vars[o] = Pt{old.Nil, x.keepObjs(old.Elem, nv, hint), old.T}
+		case St:
+			if containsObj(old) {
+				nv, _ := x.havocObjsIn(old, hint+"."+o.Name())
+				st.vars[o] = nv
+			}
+		}
 	}
 	var hs []string
 	for h := range ms.heap {
@@ -849,6 +914,16 @@ func (x *Exec) keepObjs(old, nv Val, hint string) Val {
 		return n
 	}
 	return nv
+}
+
+// reach emits a soft reachability canary: the path to this point should be
+// satisfiable (guards against contradictory assumed contracts / invariants).
+func (x *Exec) reach(st *State, pos token.Pos, what string) {
+	if st == nil || x.depth > 0 {
+		return
+	}
+	o := x.c.oblige("reach", "", st.pc, tFalse, pos, "path is reachable: "+what)
+	o.Expect = "sat-soft"
 }
 
 func (x *Exec) loopSpec() *LoopSpec {
@@ -952,6 +1027,7 @@ func (x *Exec) execFor(n *ast.ForStmt, st *State, label string) *State {
 		back = x.execStmt(n.Post, back)
 	}
 	if back != nil {
+		x.reach(back, n.Body.Rbrace, fmt.Sprintf("back edge of loop %d", ord))
 		x.checkInvs(ls, back, "inv-keep", ord, n.Body.Lbrace)
 		if decBefore != "" {
 			decAfter := x.specEnv(back, n.Body.Lbrace).evalInt(ls.Dec.E)
